@@ -199,6 +199,7 @@ def program(name, b, rnd, kinds):
     """Rig program for one behaviour. Every model step k maps to the rig step
     tagged {"k": k}."""
     role = b[0]["role"]
+    skewed = int(name[1:]) % 3 == 2      # every third program: entries stamped by leaders with different clocks
     steps = [
         {"op": "config", "toml": CONFIG_TOML},
         {"op": "create_session", "as": "a"},
@@ -224,6 +225,7 @@ def program(name, b, rnd, kinds):
     nposts = 0
     disp = 0
     last_a = None
+    cur_c = PRELUDE_USER if pre else 0     # id of the last entry of session a
     snapshots = 0
     for k, h in enumerate(b):
         if k == 0:
@@ -247,13 +249,23 @@ def program(name, b, rnd, kinds):
             data = LINES[role][kind].format(k=tok, d=disp)
             last_a = data
             tag["kind"] = kind
+            if skewed and kind not in ("server", "snick") and not late and cur_c:
+                # the previous entry of this session was accepted by a leader whose clock is 1.5 s ahead: the post
+                # below is stamped EARLIER than the session's last activity (fail-over to a slower clock)
+                # (it repeats the id of the session's last entry, so the marker the model tracks is unchanged)
+                steps.append({"op": "apply", "type": "irc_from_client", "session": "a", "data": "PING :skew%d" % tok,
+                              "cmid": 800000 + tok, "clock_ms": 1500})
+                steps.append({"op": "apply", "type": "irc_from_client", "session": "a", "data": "PING :skew%d" % tok,
+                              "cmid": cur_c, "clock_ms": 1500})
             steps.append({"op": "post", "session": "a", "data": data, "cmid": h["c"], "tag": tag})
+            cur_c = h["c"]
         elif a == "Death":
             tok += 1
             data = "PING :tok%d" % tok
             last_a = data
             steps.append({"op": "apply", "type": "message_of_death", "session": "a", "data": data,
-                          "cmid": h["c"], "tag": tag})
+                          "cmid": h["c"], "tag": tag, **({"clock_ms": -1500} if skewed else {})})
+            cur_c = h["c"]
         elif a == "Retry":
             steps.append({"op": "post", "session": "a", "data": last_a, "cmid": h["c"], "tag": tag})
         elif a == "Other":
